@@ -1,0 +1,54 @@
+//go:build verif
+
+package verifhooks
+
+// Hooks for C07/C08 (Cedar text parser / marshaller).  Additive, only under the build tag "verif".
+// All names carry the C0708 prefix so that they cannot clash with hooks of other properties.
+
+import (
+	"github.com/cedar-policy/cedar-go/internal/parser"
+	"github.com/cedar-policy/cedar-go/internal/rust"
+	"github.com/cedar-policy/cedar-go/types"
+)
+
+// C0708Token is one token of internal/parser.Tokenize: type (0 EOF, 1 Ident, 2 Int, 3 ReservedKeyword,
+// 4 String, 5 Operator, 6 Unknown), start position and raw text.
+type C0708Token struct {
+	Type   int
+	Offset int
+	Line   int
+	Column int
+	Text   string
+}
+
+// C0708Tokenize runs the scanner of the Cedar text parser on src (the final token is EOF).
+func C0708Tokenize(src []byte) ([]C0708Token, error) {
+	toks, err := parser.Tokenize(src)
+	if err != nil {
+		return nil, err
+	}
+	out := make([]C0708Token, len(toks))
+	for i, t := range toks {
+		out[i] = C0708Token{Type: int(t.Type), Offset: t.Pos.Offset, Line: t.Pos.Line, Column: t.Pos.Column, Text: t.Text}
+	}
+	return out, nil
+}
+
+// C0708EscapeString is rust.EscapeString (str::escape_debug).
+func C0708EscapeString(s string) string { return rust.EscapeString(s) }
+
+// C0708EscapeCharAll is rust.EscapeCharAll (per-char escape_debug, used for patterns).
+func C0708EscapeCharAll(s string) string { return rust.EscapeCharAll(s) }
+
+// C0708Unquote is rust.Unquote: returns the unquoted prefix, the unconsumed rest and the error.
+func C0708Unquote(b []byte, star bool) (string, []byte, error) { return rust.Unquote(b, star) }
+
+// C0708ParsePattern is parser.ParsePattern on the text between the quotes of a pattern literal.
+func C0708ParsePattern(s string) (types.Pattern, error) { return parser.ParsePattern(s) }
+
+// C0708IsPrintable / C0708IsGraphemeExtended expose the two character classes of rust.escapeRune.
+func C0708IsPrintable(r rune) bool        { return rust.VerifIsPrintable(r) }
+func C0708IsGraphemeExtended(r rune) bool { return rust.VerifIsGraphemeExtended(r) }
+
+// C0708IsReservedKeyword is parser.IsReservedKeyword.
+func C0708IsReservedKeyword(s string) bool { return parser.IsReservedKeyword(s) }
